@@ -1335,4 +1335,5 @@ SELFTESTS = [
     (rule_divisors, ["c07_diag_bad.cc"], ["c07_diag_good.cc"], "read_block"),
     (rule_nonempty_access, ["c07_end_bad.cc"], ["c07_end_good.cc"], "with_slash"),
     (rule_nonempty_access, ["c07_end_bad.cc"], ["c07_end_good.cc"], "next_start"),
+    (rule_side_effect_results, ["c07_pair_bad.cc"], ["c07_pair_good.cc"], "geom_ after read_all_sectors"),
 ]
